@@ -61,14 +61,17 @@ def fs_call(kind):
     def m(ex, st, args, kwargs, node):
         p = args[0] if args else None
         temp = st.ghost.get("temp_dir")
-        label = f"{kind}@{ex.call_ordinal(node, kind.split('.')[-1])}"
+        label = "every-path-argument-is-inside-the-private-temp-dir"     # one id for all sites: call ordinals / primitive names may change
         if temp is None or not isinstance(p, VStr):
             ex.add_vc("fs-confined", label, st.pc, z3.BoolVal(False), note=f"{ex.loc(node)} {kind}: no private temp dir in scope / path not a string", loc=ex.loc(node))
         else:
             ex.add_vc("fs-confined", label, st.pc, inside(temp, p.t), note=f"{ex.loc(node)} {kind}", loc=ex.loc(node))
         ex.exc_any(st.fork(), f"{ex.loc(node)} {kind}")
-        if kind == "os.path.exists":
+        if kind in ("os.path.exists", "os.path.lexists", "os.path.isfile", "os.path.isdir"):
             return [(st, VBool(z3.Bool(fresh_name("exists"))))]
+        if kind == "os.path.getsize":
+            from pyvc.values import VInt
+            return [(st, VInt(z3.Int(fresh_name("getsize"))))]
         if kind == "open":
             return [(st, VExt("File"))]
         return [(st, NONE)]
@@ -91,7 +94,8 @@ def install(reg):
     reg.ext_models["os.path.splitdrive"] = m_splitdrive
     reg.ext_models["os.path.isabs"] = m_isabs
     reg.ext_models[("const", "os.sep")] = VStr("/")
-    reg.ext_models["os.path.exists"] = fs_call("os.path.exists")
+    for k in ("os.path.exists", "os.path.lexists", "os.path.isfile", "os.path.isdir", "os.path.getsize", "os.unlink", "os.rmdir"):
+        reg.ext_models[k] = fs_call(k)
     reg.ext_models["os.makedirs"] = fs_call("os.makedirs")
     reg.ext_models["os.remove"] = fs_call("os.remove")
     reg.ext_models["os.mkdir"] = fs_call("os.mkdir")
@@ -103,18 +107,34 @@ SUP = z3.Function("is_supported_file_cached", S, z3.BoolSort())
 LOWER = z3.Function("str_lower", S, S)
 
 
+def real_params(rel, qual, default):
+    """parameter names of the real function, by position (a renamed parameter keeps its role); `default` when the arity differs"""
+    try:
+        f = loader.module(rel).functions.get(qual)
+        names = [a.arg for a in f.args.posonlyargs + f.args.args] if f is not None else []
+        if len(names) == len(default) and not f.args.kwonlyargs and not f.args.vararg and not f.args.kwarg:
+            return names
+    except Exception:  # noqa
+        pass
+    return list(default)
+
+
 def contracts(reg):
     install(reg)
     out = []
+    sj_base, sj_rel = real_params(SEVEN, "_safe_join", ("base_dir", "relative_path"))
+    p7_files, p7_temp, p7_arch = real_params(ARCH, "_process_7z_files_sequential", ("files_to_process", "temp_dir", "archive_path"))
+    sk_file, sk_base = real_params(ARCH, "_should_skip_file", ("filename", "basename"))
+    (sup_name,) = real_params(ARCH, "_is_supported_file_cached", ("filename",))
 
     def sj_raise(c):
-        rel, base = c.args["relative_path"].t, c.args["base_dir"].t
+        rel = c.args[sj_rel].t
         return z3.Length(rel) > 0
 
     out.append(FnContract(
         target=f"{SEVEN}::_safe_join",
-        params=[("base_dir", p_str()), ("relative_path", p_str())],
-        ensures=[("result-inside-base", lambda c: inside(c.args["base_dir"].t, c.result.t))],
+        params=[(sj_base, p_str()), (sj_rel, p_str())],
+        ensures=[("result-inside-base", lambda c: inside(c.args[sj_base].t, c.result.t))],
         raises=[Raises("Bad7zFile", when=sj_raise)],
         result_maker=lambda ex, st, ctx: VStr(z3.String(fresh_name("safe_path"))),
         note="returns only paths inside base_dir; absolute / drive / dot-dot escapes raise Bad7zFile",
@@ -131,18 +151,18 @@ def contracts(reg):
         return Maker(mk, desc="list of (FileInfo, filename, basename) with arbitrary member names")
 
     def bind_temp(c):
-        c.st.ghost["temp_dir"] = c.args["temp_dir"].t
+        c.st.ghost["temp_dir"] = c.args[p7_temp].t
         return z3.BoolVal(True)
 
     out.append(FnContract(
         target=f"{ARCH}::_process_7z_files_sequential",
-        params=[("files_to_process", files_maker()), ("temp_dir", p_str()), ("archive_path", p_opt(p_str()))],
+        params=[(p7_files, files_maker()), (p7_temp, p_str()), (p7_arch, p_opt(p_str()))],
         requires=bind_temp, generator=True, raises=[],
         note="member names are arbitrary strings (absolute, dot-dot, names of host files)",
     ))
     out.append(FnContract(
         target=f"{ARCH}::_process_archive_entry", assumed=True, generator=True,
-        params=[("filename", p_unk()), ("file_data", p_unk()), ("archive_path", p_unk()), ("basename", p_unk())],
+        params=[(n, p_unk()) for n in real_params(ARCH, "_process_archive_entry", ("filename", "file_data", "archive_path", "basename"))],
         raises=[], note="verified by the C01 pack (raises nothing); works on in-memory bytes only"))
 
     # skip rule: _should_skip_file(filename, basename)  <=>  hidden | __MACOSX/ | unsupported | nested archive
@@ -150,18 +170,18 @@ def contracts(reg):
     nested = sorted(arch.literal("NESTED_ARCHIVE_EXTENSIONS"))
 
     def skip_spec(c):
-        f, b = c.args["filename"].t, c.args["basename"].t
+        f, b = c.args[sk_file].t, c.args[sk_base].t
         return VBool(z3.Or(z3.PrefixOf(z3.StringVal("."), b), z3.PrefixOf(z3.StringVal("__MACOSX/"), f),
                            z3.Not(SUP(b)), z3.Or([z3.SuffixOf(z3.StringVal(e), LOWER(b)) for e in nested])))
 
     out.append(FnContract(
-        target=f"{ARCH}::_is_supported_file_cached", assumed=True, params=[("filename", p_str())],
-        returns=lambda c: VBool(SUP(c.args["filename"].t)),
+        target=f"{ARCH}::_is_supported_file_cached", assumed=True, params=[(sup_name, p_str())],
+        returns=lambda c: VBool(SUP(c.args[sup_name].t)),
         note="lru_cache wrapper of router.is_supported_file (verified by C07); memo soundness is C15's"))
     reg.ext_models["str.lower"] = lambda ex, st, args, kwargs, node: [(st, VStr(LOWER(args[0].t)))]
     out.append(FnContract(
         target=f"{ARCH}::_should_skip_file",
-        params=[("filename", p_str()), ("basename", p_str())],
+        params=[(sk_file, p_str()), (sk_base, p_str())],
         returns=skip_spec,
         note="hidden members, macOS resource forks, unsupported types and nested archives are skipped",
     ))
